@@ -320,6 +320,7 @@ def check(pid, tier, only=None, seed=0, jobs=JOBS):
     if not conds:
         print(f'no conditions for {pid} tier {tier}')
         return EXIT_HARNESS
+    os.environ['VERIF_TIER'] = tier
     print(f'{pid}: {len(conds)} conditions, tier={tier}, jobs={jobs}', flush=True)
 
     known_lines, stale = check_known_findings(pid) if not only else ([], [])
